@@ -34,11 +34,32 @@ def canon(t):
     return (nodes, outl, repr(t._last_node_added_to), idx, idx_rev, arr, edges, free, tuple(t.grid_size), round(float(t._log_prior), 12))
 
 
+def read_everything(t):
+    """Call every public read method of the tree, as the samplers do between edits: whatever a read
+    computes and keeps (derived values cached on the object) is then in place when the next edit
+    happens, so an edit that forgets to invalidate it shows up in the state that follows."""
+    from phyclone.smc.utils import RootPermutationDistribution
+
+    reads = [lambda: t.get_clades(), lambda: t.labels, lambda: t.roots, lambda: t.nodes, lambda: t.outliers, lambda: t.data, lambda: t.node_data,
+             lambda: t.multiplicity, lambda: t.data_log_likelihood, lambda: t.get_number_of_nodes(), lambda: hash(t), lambda: t.to_newick_string(),
+             lambda: t.get_descendants(), lambda: t.get_number_of_descendants(), lambda: RootPermutationDistribution.log_pdf(t)]
+    for nm in list(t._node_indices):
+        reads += [lambda nm=nm: t.get_children(nm), lambda nm=nm: t.get_number_of_children(nm), lambda nm=nm: t.get_descendants(nm),
+                  lambda nm=nm: t.get_number_of_descendants(nm), lambda nm=nm: t.get_subtree_data_len(nm), lambda nm=nm: t.get_data_len(nm),
+                  lambda nm=nm: t.get_data(nm), lambda nm=nm: t.get_parent(nm)]
+    for r in reads:
+        try:
+            r()
+        except Exception:
+            pass  # a read that fails is the invariants' business, not this helper's
+
+
 class Grammar(object):
     """The edit grammar of DESIGN.md section 4 / C06 over a fixed data set."""
 
-    def __init__(self, data, subtree_variants=("same", "flat", "single", "chain"), serial=("dict", "pickle"), moves_on_full_only=False):
+    def __init__(self, data, subtree_variants=("same", "flat", "single", "chain"), serial=("dict", "pickle"), moves_on_full_only=False, warm=True):
         self.moves_on_full_only = moves_on_full_only
+        self.warm = warm
         self.data = data
         self.dmap = {d.idx: d for d in data}
         self.subtree_variants = subtree_variants
@@ -96,6 +117,14 @@ class Grammar(object):
         return evs
 
     def apply(self, t, ev):
+        if self.warm:
+            read_everything(t)
+        nt = self._apply(t, ev)
+        if self.warm:
+            read_everything(nt)
+        return nt
+
+    def _apply(self, t, ev):
         from phyclone.tree import Tree
 
         data = self.dmap
